@@ -17,6 +17,7 @@ import (
 	"testing"
 	"time"
 
+	"github.com/rs/xid"
 	"github.com/rs/zerolog"
 	"github.com/rs/zerolog/hlog"
 	"pgregory.net/rapid"
@@ -269,6 +270,9 @@ type Req struct {
 	Referer string `json:"referer"`
 	Custom  string `json:"custom"`
 	Proto   string `json:"proto"`
+	// Preset: the request arrives with an id already in its context (hlog.CtxWithID, e.g. set by
+	// an outer middleware): RequestIDHandler must keep it, log it and announce it
+	Preset bool `json:"preset_id,omitempty"`
 }
 
 type ICase struct {
@@ -345,7 +349,11 @@ func runIsolation(c *ICase) (string, bool) {
 		overlapped++
 		omu.Unlock()
 		for i := 0; i < c.Events; i++ {
-			hlog.FromRequest(r).Info().Str("me", me).Int("i", i).Msg("handled")
+			e := hlog.FromRequest(r).Info().Str("me", me).Int("i", i)
+			if id, ok := hlog.IDFromRequest(r); ok {
+				e = e.Str("idseen", id.String())
+			}
+			e.Msg("handled")
 		}
 		w.WriteHeader(200 + len(me)%5)
 		w.Write([]byte(me))
@@ -360,6 +368,7 @@ func runIsolation(c *ICase) (string, bool) {
 	h = hlog.NewHandler(base)(h)
 	var wg sync.WaitGroup
 	respID := map[string]string{}
+	preset := map[string]string{}
 	var rmu sync.Mutex
 	for _, rq := range c.Reqs {
 		wg.Add(1)
@@ -373,6 +382,13 @@ func runIsolation(c *ICase) (string, bool) {
 			r.Header.Set("Referer", rq.Referer)
 			r.Header.Set("X-Custom", rq.Custom)
 			r.Header.Set("X-Me", rq.ID)
+			if rq.Preset {
+				id := xid.New()
+				rmu.Lock()
+				preset[rq.ID] = id.String()
+				rmu.Unlock()
+				r = r.WithContext(hlog.CtxWithID(r.Context(), id))
+			}
 			rr := httptest.NewRecorder()
 			h.ServeHTTP(rr, r)
 			rmu.Lock()
@@ -430,6 +446,15 @@ func runIsolation(c *ICase) (string, bool) {
 				if respID[rq.ID] != f["reqid"] {
 					return fmt.Sprintf("request %s: logged request id %q, response header carries %q", rq.ID, f["reqid"], respID[rq.ID]), overlapped >= 2
 				}
+				if rq.Preset && f["reqid"] != preset[rq.ID] {
+					return fmt.Sprintf("request %s arrived with id %q in its context but was logged with %q", rq.ID, preset[rq.ID], f["reqid"]), overlapped >= 2
+				}
+				if seen, ok := f["idseen"]; ok && seen != f["reqid"] {
+					return fmt.Sprintf("request %s: IDFromRequest gave %q inside the handler, the logger carries %q", rq.ID, seen, f["reqid"]), overlapped >= 2
+				}
+				if !isAccess && f["idseen"] == "" {
+					return fmt.Sprintf("request %s: IDFromRequest found no id behind RequestIDHandler: %q", rq.ID, line), overlapped >= 2
+				}
 			case "etag", "resphdr":
 				// added when the handler returns: only the access event (logged after) may carry them
 				wantV := map[string]string{"etag": "etag-" + rq.ID, "resphdr": "resp-" + rq.ID}[hn]
@@ -448,7 +473,7 @@ func runIsolation(c *ICase) (string, bool) {
 		// no field of a handler that is not in the chain, no value of another request
 		for k := range f {
 			switch k {
-			case "level", "message", "me", "i", "status", "size":
+			case "level", "message", "me", "i", "status", "size", "idseen":
 				continue
 			}
 			if strings.HasPrefix(k, "base") {
@@ -497,7 +522,8 @@ func genICase(rt *rapid.T, maxReqs int) *ICase {
 		hosts := []string{fmt.Sprintf("h%d.example.com:%d", i, 8000+i), fmt.Sprintf("h%d.example.com", i), fmt.Sprintf("[2001:db8:1::%x]:%d", i+1, 8000+i), fmt.Sprintf("2001:db8:1::%x", i+1), fmt.Sprintf("こんにちは%d.com:%d", i, 80+i)}
 		c.Reqs = append(c.Reqs, Req{ID: id, Method: []string{"GET", "POST", "PUT", "DELETE", "PATCH"}[i%5], URL: fmt.Sprintf("/p/%s?q=%d", id, i),
 			Remote: remotes[rapid.IntRange(0, len(remotes)-1).Draw(rt, "remoteform")], Host: hosts[rapid.IntRange(0, len(hosts)-1).Draw(rt, "hostform")],
-			UA: "agent-" + id, Referer: "http://ref/" + id, Custom: "custom-" + id, Proto: []string{"HTTP/1.0", "HTTP/1.1", "HTTP/2.0"}[i%3]})
+			UA: "agent-" + id, Referer: "http://ref/" + id, Custom: "custom-" + id, Proto: []string{"HTTP/1.0", "HTTP/1.1", "HTTP/2.0"}[i%3],
+			Preset: rapid.IntRange(0, 3).Draw(rt, "preset") == 0})
 	}
 	return c
 }
